@@ -509,12 +509,6 @@ func callSSA(i *interpreter, caller *frame, callpos token.Pos, fn *ssa.Function,
 		caller: caller, // for panic/recover
 		fn:     fn,
 	}
-	if fn.Blocks == nil {
-		// function bodies are built lazily, one package at a time
-		if p := pkgOfFunc(fn); p != nil {
-			p.Build()
-		}
-	}
 	if fn.Parent() == nil {
 		if fn.Pkg != nil && fn.Pkg.Pkg.Path() == VerifrtPath {
 			if r, ok := intrinsic(fr, fn, args); ok {
@@ -552,8 +546,14 @@ func callSSA(i *interpreter, caller *frame, callpos token.Pos, fn *ssa.Function,
 				return t
 			}
 		}
+	}
+	if fn.Blocks == nil {
+		// function bodies are built lazily, one package at a time
+		if p := pkgOfFunc(fn); p != nil {
+			buildPackage(p)
+		}
 		if fn.Blocks == nil {
-			panic(pathAbort{"unsupported", "no code for function: " + name})
+			panic(pathAbort{"unsupported", "no code for function: " + fn.String()})
 		}
 	}
 	if ex != nil && !ex.seenFuncs[fn] {
@@ -628,6 +628,9 @@ func runFrame(fr *frame) {
 			ex.panicOrigin = fr.fn.String() + " " + pos
 			if os.Getenv("VERIF_DEBUG") != "" {
 				fmt.Fprintf(os.Stderr, "  panic at %s: %v\n", ex.panicOrigin, fr.panic)
+				for f := fr; f != nil; f = f.caller {
+					fmt.Fprintf(os.Stderr, "      in %s\n", f.fn)
+				}
 			}
 		}
 		fr.runDefers()
@@ -814,6 +817,16 @@ func (i *interpreter) resetPerPath() {
 	i.stubDepth = 0
 }
 
+// buildPackage builds the SSA bodies of p; a failure of the SSA builder is an unsupported path.
+func buildPackage(p *ssa.Package) {
+	defer func() {
+		if r := recover(); r != nil {
+			panic(pathAbort{"unsupported", fmt.Sprintf("SSA builder failed on package %s: %v", p.Pkg.Path(), r)})
+		}
+	}()
+	p.Build()
+}
+
 func pkgOfFunc(fn *ssa.Function) *ssa.Package {
 	if fn.Pkg != nil {
 		return fn.Pkg
@@ -845,6 +858,7 @@ func (i *interpreter) ensureInit(pkg *ssa.Package) {
 		i.inited[pkg] = 2
 		return
 	}
+	buildPackage(pkg)
 	i.inited[pkg] = 1
 	wasInit := ex.inInit
 	ex.inInit = true
